@@ -11,6 +11,7 @@
 #include <frg/tuple.hpp>
 #include <frg/eternal.hpp>
 #include <tuple>
+#include <string>
 #include <optional>
 #include <variant>
 
@@ -476,6 +477,30 @@ static InstResult small_holders() {
 		else obj->~Tracked();   // balance the registry
 	}
 	try { raise_pending(); world_check_empty("eternal"); } catch(const Violation &v) { r.add_violation(v, "eternal"); }
+	// element types WITHOUT a user-provided default constructor (scalars, aggregates): constructing "from nothing" means
+	// value-initialisation, also the second time round when the storage still holds the previous value
+	{
+		struct Pod { int id; long tag[3]; };
+		struct Mixed { int id; std::string name; };
+		for(int round = 0; round < 3; round++) {
+			tick();
+			frg::manual_box<int> bi; std::optional<int> oi;
+			bi.initialize(42 + round); oi.emplace(42 + round); bi.destruct(); oi.reset(); bi.initialize(); oi.emplace();
+			if(*bi != *oi) bad("manual_box:reinitialize:scalar", "manual_box<int>: initialize(v); destruct(); initialize() yields " + std::to_string(*bi) + ", std::optional yields " + std::to_string(*oi));
+			bi.destruct();
+			frg::manual_box<Pod> bp; bp.initialize(); bp->id = 7 + round; bp->tag[2] = 9; bp.destruct(); bp.initialize();
+			if(bp->id != 0 || bp->tag[2] != 0) bad("manual_box:reinitialize:aggregate", "manual_box<aggregate>: a second initialize() left the previous member values in place");
+			bp.destruct();
+			frg::manual_box<Mixed> bm; bm.initialize(); bm->id = 5; bm->name = "x"; bm.destruct(); bm.initialize();
+			if(bm->id != 0 || !bm->name.empty()) bad("manual_box:reinitialize:aggregate", "manual_box<{int, string}>: a second initialize() left the previous member values in place");
+			bm.destruct();
+			frg::optional<int> fo; fo.emplace(42 + round); fo = frg::null_opt; fo.emplace();
+			if(*fo != 0) bad("optional:reemplace:scalar", "optional<int>: emplace(v); reset; emplace() does not yield 0");
+			frg::variant<int, Pod> fv; fv.emplace<Pod>(); fv.get<Pod>().id = 3; fv.emplace<int>(); fv.emplace<Pod>();
+			if(fv.get<Pod>().id != 0) bad("variant:reemplace:aggregate", "variant: emplace<aggregate>() after a previous value does not value-initialise");
+			frg::eternal<Pod> fe; if(fe.get().id != 0 || fe.get().tag[1] != 0) bad("eternal:value-init", "eternal<aggregate>() is not value-initialised");
+		}
+	}
 	r.samples.push_back("expected<E,void>: 4 states x bool/maybe_error/error/unwrap/map_error/copy/assign + asserting accessors; FRG_TRY: 3 gates x 4 inputs; eternal<Tracked>: identity of accessors, object survives the holder");
 	r.states = r.distinct; r.transitions = r.evaluations;
 	return r;
